@@ -110,8 +110,19 @@ def reference_cases(tier, rng):
     from datetime import datetime, timezone, timedelta
     ALL = dict(utf8=1, reqtls=1, binmime=1, dsn=1, rrvs=1)
     cases = []
+    FULL = b" SIZE=1000 BODY=BINARYMIME SMTPUTF8 REQUIRETLS RET=HDRS ENVID=QQ314159 AUTH=<>"
     def mail_case(fl, toks, xp):
-        c = g.Conv(fl); c.add(b"EHLO x\r\n"); c.add(b"MAIL FROM:<s@x>" + b"".join(b" " + t for t in toks) + b"\r\n"); c.add(b"NOOP\r\n")
+        # the line under test alone, or after an earlier MAIL (to another address) of the same connection that set every option:
+        # answered 451 by the backend, refused for a faulty parameter, or accepted and then replaced — nothing of it may stick
+        hist = rng.choice(["none", "none", "backend-451", "refused-param", "accepted"]) if all(fl.get(k) for k in ("utf8", "reqtls", "binmime", "dsn")) else "none"
+        c = g.Conv(fl); c.add(b"EHLO x\r\n")
+        if hist == "backend-451":
+            c.add(b"MAIL FROM:<p@x>" + FULL + b"\r\n", MAIL=g.se(451, "4.3.0", b"try again"))
+        elif hist == "refused-param":
+            c.add(b"MAIL FROM:<p@x>" + FULL + b" FOO=1\r\n")
+        elif hist == "accepted":
+            c.add(b"MAIL FROM:<p@x>" + FULL + b"\r\n", MAIL="ok")
+        c.add(b"MAIL FROM:<s@x>" + b"".join(b" " + t for t in toks) + b"\r\n"); c.add(b"NOOP\r\n")
         cases.append(c.case(seg="line") + "\tXP=" + xp)
     def rcpt_case(fl, toks, xp):
         c = g.Conv(fl); c.add(b"EHLO x\r\n"); c.add(b"MAIL FROM:<s@x>\r\n")
